@@ -100,3 +100,13 @@ Theorem C03_source_register_class_codes_are_the_models :
   reg_code (Primitive 0 TNone) = Ok (impl_code_primitive, 0) /\ reg_code (Tmp 0 TNone) = Ok (impl_code_tmp, 0).
 Proof. exact reg_codes_tie. Qed.
 Print Assumptions C03_source_register_class_codes_are_the_models.
+
+(* translator obligations (lib/gen_statespace.py reads the structs, statics and mutable bindings of the
+   modelled code on every run): the code has the state the model represents and no other *)
+From Portus Require Import StateTie.
+From PortusGen Require Import StateSpace.
+From Coq Require Import String.
+Open Scope string_scope.
+Theorem C03_source_bin_state : impl_fields_Bin = model_fields_Bin.
+Proof. exact fields_Bin_tie. Qed.
+Print Assumptions C03_source_bin_state.
